@@ -342,7 +342,7 @@ impl Run {
             .ok()
             .and_then(|s| s.parse().ok())
             .unwrap_or(match tier {
-                Tier::Quick => 100.0,
+                Tier::Quick => 150.0,
                 Tier::Thorough => 1700.0,
             });
         Run {
